@@ -85,6 +85,11 @@ func vh_C03_fold() {
 			n.child = n.child[:1]
 			posConst(n)
 			want = x
+		case 7:
+			// ^x on an untyped integer constant is -x-1 (unbounded two's complement)
+			n.child = n.child[:1]
+			bitNotConst(n)
+			want = vBigSub(vBigNeg(x), vBigInt64(1))
 		}
 	}()
 	if divides {
@@ -255,7 +260,7 @@ func vmCfgErrorf(n *node, format string, a ...interface{}) *cfgError {
 	return &cfgError{n, errors.New("constant overflows its type")}
 }
 
-var vhTypedActs = []action{aAdd, aSub, aMul, aQuo, aShl, aNeg, aRem, aAnd, aOr, aXor, aAndNot, aShr}
+var vhTypedActs = []action{aAdd, aSub, aMul, aQuo, aShl, aNeg, aRem, aAnd, aOr, aXor, aAndNot, aShr, aBitNot}
 
 func vh_C03_fold_typed() {
 	k := reflect.Kind(vhKind)
@@ -306,6 +311,14 @@ func vh_C03_fold_typed() {
 	case aNeg:
 		n.child = n.child[:1]
 		want = vBigNeg(x)
+	case aBitNot:
+		// ^x of a typed constant: the complement within the type
+		n.child = n.child[:1]
+		if vBigLt(vKindMin(k), vBigInt64(0)) {
+			want = vBigSub(vBigNeg(x), vBigInt64(1))
+		} else {
+			want = vBigSub(vKindMax(k), x)
+		}
 	default:
 		// and, or, xor, andNot never leave the type: only the absence of an error is asserted
 		want = vBigInt64(0)
